@@ -94,6 +94,21 @@ Theorem C20_response_roles :
 Proof. exact (nh_T_response_roles C20_source_tables_check). Qed.
 Print Assumptions C20_response_roles.
 
+(* "the receiver is still listening when the sender starts" -- for every pair of instructions in every reachable state:
+   ReadTimeoutMs of the receiving side >= SendDelayMs of the sending side + the stagger HandleVisitor inserts before the
+   sender's response + 3000 ms, and the sender waits >= 3000 ms for the answer.  The timeout expressions of
+   Controller.analysis and the stagger of HandleVisitor are translated from today's source (T2) and evaluated over
+   every row of today's tables inside C20_source_tables_check ([nh_resp_timing], [nh_margin]: Proofs/NatHoleProofs.v). *)
+Theorem C20_receiver_still_listening :
+  forall a sid vm cm, nh_reachable nh_today a ->
+  exists a' rv rc, nh_responses nh_today a sid vm cm = Some (a', rv, rc) /\
+    (r_err rv = NeNone \/ r_err rc = NeNone -> nh_resp_timing nh_today rv rc).
+Proof. exact (nh_T_receiver_still_listening C20_source_tables_check). Qed.
+Print Assumptions C20_receiver_still_listening.
+
+Example C20_ex_stagger_today : (tm_stagger_v (nd_timing nh_today), tm_stagger_c (nd_timing nh_today), nh_margin) = (1000, 1000, 3000).
+Proof. vm_compute. reflexivity. Qed.
+
 (* every candidate port range of either response: 1 <= From <= To <= 65535 (full strength, repaired code) *)
 Theorem C20_ranges_wellformed :
   forall a sid vm cm, nh_reachable nh_today a ->
